@@ -238,7 +238,8 @@ Proof.
     apply gall_gone. apply step_loc; [exact Hc | apply pair_child; exact Hkv].
   - cbn [elems]. apply gall_gfor. intros [j x] Hin. enum_tac i els.
     apply gall_gfirst. intros [o|]; [|apply gall_gnil]. apply gall_gone. apply step_loc; assumption.
-  - apply gall_gnil.
+  - apply gall_gfor. intros e He. apply gall_gfirst. intros [o|]; [|apply gall_gnil].
+    apply gall_gone. apply step_loc; [exact Hc | exact He].
 Qed.
 
 Lemma hash_desc_scan_loc m term inv items st matches k :
